@@ -309,6 +309,9 @@ func (s *server) ModifyColumnFamilies(ctx context.Context, req *btapb.ModifyColu
 				return nil, fmt.Errorf("can't delete unknown family %q", mod.Id)
 			}
 			delete(cfs, mod.Id)
+			// Persist the drop before the purge: if the process dies in between, the family is gone (its
+			// remaining cells are invisible) instead of still being listed with part of its cells missing.
+			s.storage.SetTableMeta(tbl.def)
 
 			// Purge all data for this column family
 			tbl.rows.Ascend(func(r *btpb.Row) bool {
